@@ -364,12 +364,17 @@ func c16(p *model.Prog, r *report.Result) {
 	}
 
 	// ---------------------------------------------------------------- R5
-	r.Rule("C16.R5", "in ServerManager.RunLoop's tick callback Group.Dispose() runs only on the true edge of IsInactive() and that path returns false (erase); the other edge calls Tick and returns true")
+	r.Rule("C16.R5", "in the tick callback of ServerManager.RunLoop (in RunLoop or a same-package function it calls) Group.Dispose() runs only on the true edge of IsInactive() and that path returns false (erase); the other edge calls Tick and returns true")
 	rl := p.Method("pkg/logic", "ServerManager", "RunLoop")
 	isInactive := p.MethodObj("pkg/logic", "Group", "IsInactive")
 	gDispose := p.MethodObj("pkg/logic", "Group", "Dispose")
 	nCb := 0
-	for _, fn := range model.WithAnons(rl) {
+	var tickFns []*ssa.Function
+	for _, g := range model.StaticGroup(rl, 2) {
+		// RunLoop, or a method of the manager that RunLoop calls for the tick
+		tickFns = append(tickFns, model.WithAnons(g)...)
+	}
+	for _, fn := range tickFns {
 		tests := model.CallsTo(fn, isInactive)
 		if len(tests) == 0 {
 			continue
